@@ -72,7 +72,9 @@ func stepSiteOK(s string) bool {
 	}
 	for _, p := range []string{"models.", "vikja.", "odal.", "dagaz.", "modules.",
 		"websocket.RealtimeHandler.HandleParticipantJoin", "websocket.RealtimeHandler.HandleDisconnect", "websocket.RealtimeHandler.leaveSession",
-		"websocket.RealtimeHandler.HandleEntityDelete", "websocket.RealtimeHandler.HandleEntityComponentAdd", "websocket.RealtimeHandler.HandleWithModule", "websocket.handler.disconnect", "websocket.handler.handleDisconnect", "websocket.handler.Handle#",
+		"websocket.RealtimeHandler.HandleEntityDelete", "websocket.RealtimeHandler.HandleEntityComponentAdd", "websocket.RealtimeHandler.HandleWithModule",
+		// the victim's own answers and state messages: parked between building a message and marshalling / queueing it
+		"websocket.handler.send", "websocket.responseSender.Send", "websocket.handler.disconnect", "websocket.handler.handleDisconnect", "websocket.handler.Handle#",
 		"websocket.handlerWithLogs.HandleParticipantJoin", "websocket.handlerWithLogs.HandleDisconnect", "websocket.handlerWithMetrics.HandleParticipantJoin", "websocket.handlerWithMetrics.HandleDisconnect"} {
 		if strings.HasPrefix(s, p) {
 			return true
@@ -337,6 +339,10 @@ func (en *stepEnv) interfere(victim string) (err error) {
 		return
 	}
 	if _, err = m.AddAsset(en.eN, "as1"); err != nil {
+		return
+	}
+	// a new action key as well (the set of actions grows, not only changes)
+	if _, err = m.Action(en.eN, "n0", 1_700_000_101, "n"); err != nil {
 		return
 	}
 	if err = m.Custom([]byte("step-custom")); err != nil {
@@ -786,7 +792,7 @@ func (en *stepEnv) judgeSession(c StepCase, res *StepResult, snap *scen.Snapshot
 		}
 		return n
 	}
-	script := []string{fmt.Sprint("entity-add ", en.eN), fmt.Sprint("entity-delete ", en.eDel), `comp-add "cn"`, `comp-update "c1"`, `action "y"`, `asset "as1"`, `custom "step-custom"`}
+	script := []string{fmt.Sprint("entity-add ", en.eN), fmt.Sprint("entity-delete ", en.eDel), `comp-add "cn"`, `comp-update "c1"`, `action "y"`, `action "n"`, `asset "as1"`, `custom "step-custom"`}
 	wn := count(w)
 	for _, k := range script {
 		if wn[k] != 1 {
